@@ -12,7 +12,11 @@
 //!  * exhaustive: every ordered pair of the 21 infix forms (17 binary operators, `in`, `not in`,
 //!    `is t`, `is not t`, `| f`) as `A op1 B op2 C` with no parentheses at all, both nestings
 //!    through the printer, unary and ternary combinations; triples in the thorough tier;
-//!  * malformed stream: token-level mutations of valid expressions, nesting limits.
+//!  * malformed stream: token-level mutations of valid expressions, nesting limits;
+//!  * reference printer: random trees are sent to the Lean driver (`spec`), which answers with the
+//!    tokens of the documented spelling (`S.render` of Spec/Precedence.lean, the object of the
+//!    parse/print theorems) and the AST it denotes; the real engine must parse that spelling to
+//!    exactly that AST.
 use std::collections::{BTreeMap, HashSet};
 use tera::{Context, Delimiters, Tera};
 use tera_verif_harness::report::{out_path, replay_path, Report};
@@ -770,6 +774,224 @@ fn has_concat_unary(x: &X) -> bool {
     bad
 }
 
+// ------------------------------------------------------------------ the Lean reference printer
+
+const BIN_RUST: [&str; 17] = ["Mul", "Div", "Mod", "Plus", "Minus", "FloorDiv", "Power", "LessThan", "GreaterThan", "LessThanOrEqual", "GreaterThanOrEqual", "Equal", "NotEqual", "And", "Or", "StrConcat", "In"];
+
+fn hexs(s: &str) -> String {
+    s.bytes().map(|b| format!("{b:02x}")).collect()
+}
+
+/// wire form of the surface tree `S` of lean/TeraModel/Spec/Precedence.lean (read by `parseS` in
+/// Driver/C02.lean); `None` when the tree has no counterpart in `S`
+fn s_wire(x: &X, rng: &mut Rng, out: &mut Vec<String>) -> Option<()> {
+    // redundant parentheses now and then (never inside an identifier chain: handled by callers)
+    if !x.is_chain() && rng.chance(1, 12) {
+        out.push("paren".into());
+    }
+    fn args(kw: &[(String, X)], rng: &mut Rng, out: &mut Vec<String>) -> Option<()> {
+        for (n, v) in kw {
+            out.push(format!("arg:{}", hexs(n)));
+            s_wire(v, rng, out)?;
+        }
+        out.push(if !kw.is_empty() && rng.chance(1, 5) { "argend".into() } else { "argnil".into() });
+        Some(())
+    }
+    fn opt(p: &Option<Box<X>>, rng: &mut Rng, out: &mut Vec<String>) -> Option<()> {
+        match p {
+            None => {
+                out.push("absent".into());
+                Some(())
+            }
+            Some(p) => s_wire(p, rng, out),
+        }
+    }
+    match x {
+        X::Int(i) => out.push(format!("int:{i}")),
+        X::Float(f) => out.push(format!("flt:{:016x}", f.parse::<f64>().ok()?.to_bits())),
+        X::Str(t) => out.push(format!("str:{}", hexs(t))),
+        X::Bool(b) => out.push(if *b { "b1".into() } else { "b0".into() }),
+        X::NoneLit(k) => out.push(format!("none:{}", hexs(k))),
+        X::Var(v) => out.push(format!("var:{}", hexs(v))),
+        X::Attr(b, n, o) => {
+            out.push(format!("attr{}:{}", if *o { 1 } else { 0 }, hexs(n)));
+            s_wire(b, rng, out)?;
+        }
+        X::Index(b, i, o) => {
+            if b.is_chain() {
+                out.push(format!("sub{}", if *o { 1 } else { 0 }));
+            } else if *o {
+                return None;
+            } else {
+                out.push("idx".into());
+            }
+            s_wire(b, rng, out)?;
+            s_wire(i, rng, out)?;
+        }
+        X::Slice(b, a, c, d, o) => {
+            if b.is_chain() {
+                out.push(format!("sslice{}", if *o { 1 } else { 0 }));
+            } else if *o {
+                return None;
+            } else {
+                out.push("slice".into());
+            }
+            s_wire(b, rng, out)?;
+            opt(a, rng, out)?;
+            opt(c, rng, out)?;
+            opt(d, rng, out)?;
+        }
+        X::Call(n, kw) => {
+            out.push(format!("call:{}", hexs(n)));
+            args(kw, rng, out)?;
+        }
+        X::Filter(b, n, kw) => match kw {
+            None => {
+                out.push(format!("fil:{}", hexs(n)));
+                s_wire(b, rng, out)?;
+            }
+            Some(kw) => {
+                out.push(format!("filA:{}", hexs(n)));
+                s_wire(b, rng, out)?;
+                args(kw, rng, out)?;
+            }
+        },
+        X::Test(b, n, kw, neg) => match kw {
+            None => {
+                out.push(format!("tst{}:{}", if *neg { 1 } else { 0 }, hexs(n)));
+                s_wire(b, rng, out)?;
+            }
+            Some(kw) => {
+                out.push(format!("tstA{}:{}", if *neg { 1 } else { 0 }, hexs(n)));
+                s_wire(b, rng, out)?;
+                args(kw, rng, out)?;
+            }
+        },
+        X::Not(a) => {
+            out.push("un:Not".into());
+            s_wire(a, rng, out)?;
+        }
+        X::Neg(a) => {
+            out.push("un:Minus".into());
+            s_wire(a, rng, out)?;
+        }
+        X::Bin(op, a, b) => {
+            out.push(format!("bin:{}", BIN_RUST[*op]));
+            s_wire(a, rng, out)?;
+            s_wire(b, rng, out)?;
+        }
+        X::NotIn(a, b) => {
+            out.push("notin".into());
+            s_wire(a, rng, out)?;
+            s_wire(b, rng, out)?;
+        }
+        X::Tern(c, t, f) => {
+            out.push("tern".into());
+            s_wire(c, rng, out)?;
+            s_wire(t, rng, out)?;
+            s_wire(f, rng, out)?;
+        }
+        X::Array(xs) => {
+            out.push("arr".into());
+            for (sp, e) in xs {
+                out.push(if *sp { "item1".into() } else { "item0".into() });
+                s_wire(e, rng, out)?;
+            }
+            out.push(if !xs.is_empty() && rng.chance(1, 5) { "iend".into() } else { "inil".into() });
+        }
+        X::Map(es) => {
+            out.push("map".into());
+            for (k, v) in es {
+                match k {
+                    None => out.push("esp".into()),
+                    Some(k) => {
+                        out.push("ekv".into());
+                        if k == "true" {
+                            out.push("kb1".into());
+                        } else if k == "false" {
+                            out.push("kb0".into());
+                        } else if let Ok(i) = k.parse::<i64>() {
+                            out.push(format!("ki:{i}"));
+                        } else if k.len() >= 2 && (k.starts_with('"') || k.starts_with('\'')) {
+                            out.push(format!("ks:{}", hexs(&k[1..k.len() - 1])));
+                        } else {
+                            return None;
+                        }
+                    }
+                }
+                s_wire(v, rng, out)?;
+            }
+            out.push(if !es.is_empty() && rng.chance(1, 5) { "eend".into() } else { "enil".into() });
+        }
+        X::Comp(e, k, v, t, c) => {
+            out.push(if k.is_some() { "comp1".into() } else { "comp0".into() });
+            s_wire(e, rng, out)?;
+            if let Some(k) = k {
+                out.push(format!("n:{}", hexs(k)));
+            }
+            out.push(format!("n:{}", hexs(v)));
+            s_wire(t, rng, out)?;
+            opt(c, rng, out)?;
+        }
+    }
+    Some(())
+}
+
+/// source text of one token in the wire form of Model/Tok.lean
+fn tok_text(w: &str) -> Option<String> {
+    let unhex = |h: &str| -> Option<String> {
+        let bytes: Option<Vec<u8>> = (0..h.len() / 2).map(|i| u8::from_str_radix(h.get(2 * i..2 * i + 2)?, 16).ok()).collect();
+        String::from_utf8(bytes?).ok()
+    };
+    Some(match w {
+        "PLUS" => "+".into(),
+        "MINUS" => "-".into(),
+        "MUL" => "*".into(),
+        "DIV" => "/".into(),
+        "FLOORDIV" => "//".into(),
+        "POWER" => "**".into(),
+        "MOD" => "%".into(),
+        "DOT" => ".".into(),
+        "QUESTION_MARK_DOT" => "?.".into(),
+        "QUESTION_MARK_LEFT_BRACKET" => "?[".into(),
+        "COMMA" => ",".into(),
+        "COLON" => ":".into(),
+        "TILDE" => "~".into(),
+        "ASSIGN" => "=".into(),
+        "PIPE" => "|".into(),
+        "EQ" => "==".into(),
+        "NE" => "!=".into(),
+        "GT" => ">".into(),
+        "GTE" => ">=".into(),
+        "LT" => "<".into(),
+        "LTE" => "<=".into(),
+        "LEFT_BRACKET" => "[".into(),
+        "RIGHT_BRACKET" => "]".into(),
+        "LEFT_PAREN" => "(".into(),
+        "RIGHT_PAREN" => ")".into(),
+        "LEFT_BRACE" => "{".into(),
+        "RIGHT_BRACE" => "}".into(),
+        "SPREAD" => "...".into(),
+        "bool0" => "false".into(),
+        "bool1" => "true".into(),
+        _ => {
+            if let Some(h) = w.strip_prefix("id:") {
+                unhex(h)?
+            } else if let Some(h) = w.strip_prefix("str:") {
+                let t = unhex(h)?;
+                let q = if !t.contains('\'') { '\'' } else if !t.contains('"') { '"' } else { '`' };
+                format!("{q}{t}{q}")
+            } else if let Some(d) = w.strip_prefix("int:") {
+                d.to_string()
+            } else if let Some(h) = w.strip_prefix("float:") {
+                format!("{:?}", f64::from_bits(u64::from_str_radix(h, 16).ok()?))
+            } else {
+                return None;
+            }
+        }
+    })
+}
+
 // ------------------------------------------------------------------ engine / model access
 
 fn engine_ast(src: &str) -> String {
@@ -1064,6 +1286,19 @@ fn main() {
         report.count(&format!("random.depth.{}", x.depth().min(12)));
     }
 
+    // ---- the Lean reference printer against the real engine: the documented spelling that
+    // `S.render` (Spec/Precedence.lean) gives a tree must be parsed by the engine to the AST
+    // `S.erase` assigns to it (the parse/print theorems are about exactly these spellings)
+    let mut spec_reqs: Vec<String> = Vec::new();
+    for x in trees.iter().take(env.budget(3000, 200_000)) {
+        let mut w = Vec::new();
+        if s_wire(x, &mut rng, &mut w).is_some() {
+            spec_reqs.push(format!("spec {}", w.join(" ")));
+        } else {
+            report.count("spec-printer.no-counterpart");
+        }
+    }
+
     // ---- malformed / adversarial stream: token mutations of valid spellings, nesting limits
     let n_mut = env.budget(4000, 800_000);
     let junk = ["+", "-", "not", "in", "is", "if", "else", "(", ")", "[", "]", "?[", ".", "?.", ",", ":", "|", "~", "**", "*", "and", "or", "...", "{", "}", "=", "!", "<", "/", ">", "for", "a", "1", "'s'", "none", "1.", "99999999999999999999"];
@@ -1285,6 +1520,45 @@ fn main() {
         }
     };
 
+    // the reference printer stage
+    let mut spec_fail: Vec<(String, String)> = Vec::new();
+    match driver::run_batch_parallel(&exe, &spec_reqs, threads) {
+        Err(e) => report.notes.push(format!("spec printer stage not run: {e}")),
+        Ok(answers) => {
+            for (req, ans) in spec_reqs.iter().zip(answers.iter()) {
+                let parts: Vec<&str> = ans.split(" | ").collect();
+                if parts.len() != 3 {
+                    spec_fail.push((req.clone(), format!("unreadable answer `{ans}`")));
+                    continue;
+                }
+                let head: Vec<&str> = parts[0].split(' ').collect();
+                let nums: Vec<usize> = head.iter().skip(1).filter_map(|n| n.parse().ok()).collect();
+                if head.first() != Some(&"1") {
+                    report.count("spec-printer.not-valid-tree");
+                    continue;
+                }
+                if nums.len() != 3 || nums[0] + 1 > 40 || nums[1] > 4 || nums[2] > 2 {
+                    report.count("spec-printer.over-nesting-limit");
+                    continue;
+                }
+                let text: Option<Vec<String>> = parts[1].split(' ').filter(|t| !t.is_empty()).map(tok_text).collect();
+                let Some(text) = text else {
+                    spec_fail.push((req.clone(), format!("token without spelling in `{}`", parts[1])));
+                    continue;
+                };
+                let src = plain_join(&text);
+                let e = engine_ast(&src);
+                report.evaluations += 1;
+                report.model_comparisons += 1;
+                report.count(&format!("spec-printer.parse.{}", e.split(' ').next().unwrap_or("")));
+                if e != format!("ok Ns1 Expr {}", parts[2]) {
+                    report.model_disagreements += 1;
+                    spec_fail.push((src.clone(), format!("Lean reference printer spells `{src}` for the AST `{}` but the engine parses it to `{e}`", parts[2])));
+                }
+            }
+        }
+    }
+
     let replay_of = |c: &Case, extra: serde_json::Value| {
         serde_json::json!({
             "src": c.src, "reference": c.reference, "stream": c.stream, "label": c.label, "detail": extra,
@@ -1465,6 +1739,13 @@ fn main() {
         }
     }
 
+    if oracle_fail.is_empty() && burst_fail.is_empty() {
+        spec_fail.sort_by_key(|(s, _)| s.len());
+        for (src, d) in spec_fail.iter().take(3) {
+            report.violation("model-mismatch", d.clone(), serde_json::json!({"src": src, "stage": "correspondence:spec-printer->engine", "detail": d,
+                "rerun": "harness/target/release/c02 --replay <this file>"}));
+        }
+    }
     for i in [0usize, n_exhaustive / 2, n_exhaustive + 1, n_exhaustive + n_random / 2, cases.len() - 1] {
         if let Some(c) = cases.get(i) {
             report.sample(serde_json::json!({"stream": c.stream, "src": c.src, "reference": c.reference, "engine_ast": eng[i].0, "model": model.get(i)}));
@@ -1477,6 +1758,6 @@ fn main() {
         if env.quick() { "" } else { ", 21^3 triples" },
         n_exhaustive
     ));
-    report.rule = "a case is a source `{{ expr }}`; non-trivial = the real parser accepts it (the Pratt loop ran to completion); distinct by source text. Streams: pair-raw / triple-raw (no parentheses, documented grouping as oracle), pair-nesting (both nestings through the printer), unary-infix, infix-unary, ternary-infix, random (typed trees depth<=6, minimal+redundant parentheses vs fully parenthesised), mutated / limits / handwritten (malformed and boundary inputs: both sides must reject or agree), repo-inputs".into();
+    report.rule = "a case is a source `{{ expr }}`; non-trivial = the real parser accepts it (the Pratt loop ran to completion); distinct by source text. Streams: pair-raw / triple-raw (no parentheses, documented grouping as oracle), pair-nesting (both nestings through the printer), unary-infix, infix-unary, ternary-infix, random (typed trees depth<=6, minimal+redundant parentheses vs fully parenthesised), mutated / limits / handwritten (malformed and boundary inputs: both sides must reject or agree), shapes (exhaustive small argument lists / arrays / maps / comprehensions / slices / component calls), in-loop (the same inside `{% for %}`), repo-inputs; spec-printer: the documented spelling the LEAN reference printer `S.render` gives a random tree, parsed by the real engine, must be the AST `S.erase` assigns to it".into();
     report.write(&out_path());
 }
